@@ -19,7 +19,7 @@ RULE = ('A temporary tree (mapped directory with nested files, a mapped single f
         'type, single files, default-file override) and endpoint settings. Paths: every sequence '
         'of up to 3 (quick) / 4 (thorough) segments from {file and directory names, ., .., empty, '
         '%2e%2e, the endpoint, a name sharing the endpoint prefix, the secret} exhaustively for the '
-        'main configurations, Hypothesis-drawn longer ones for all. Oracle by content: a body equal '
+        'main configurations, Hypothesis-drawn longer ones for all, and sequences of 2-5 requests to one application object (each judged like a request to a fresh one). Oracle by content: a body equal '
         'to a file content identifies the file served - it must be a mapped file or lie beneath a '
         'mapped directory, never the secret; its content type comes from the mapping or the '
         'extension table; the engine is reached iff the path starts with the endpoint; for clean '
